@@ -69,7 +69,7 @@ Print Assumptions resume_first_block_clipped.
 
 (* non-vacuity *)
 Example c06_cfg_ok : cfg_ok (Task 1 1 2 3 5 9 3 2 [] true true).
-Proof. apply cfg_okb_sound. vm_compute. reflexivity. Qed.
+Proof. exact (proj2 (proj2 (proj2 cfg_ok_examples))). Qed.
 Example c06_range_example :
   pair_in_range (Task 1 1 2 3 1 0 3 1 [] true true) w2_mid.
-Proof. apply TaskInv_range. apply w2_mid_inv. Qed.
+Proof. exact (TaskInv_range _ _ (proj1 w2_mid_inv)). Qed.
